@@ -22,7 +22,22 @@ ASSUMPTIONS = ["reference line editor models/lined.py with its documented calibr
 WORDS = exgen.WORDS
 FILTERS = {"tr a-z A-Z": lambda ls: [l.upper() if l.isascii() else "".join(ch.upper() if ch.isascii() else ch for ch in l) for l in ls],
            "sort": lambda ls: sorted(ls, key=lambda s: s.encode("utf-8")), "rev": lambda ls: [l[::-1] for l in ls],
-           "sed s/$/X/": lambda ls: [l + "X" for l in ls], "cat": lambda ls: list(ls)}
+           "sed s/$/X/": lambda ls: [l + "X" for l in ls], "cat": lambda ls: list(ls),
+           # output without a final newline / a single unterminated line / no output at all
+           "tr -d '[:space:]'": lambda ls: ([x for x in ["".join("".join(l.split()) for l in ls)] if x]), "printf x": lambda ls: ["x"],
+           "head -c 3": lambda ls: _split("".join(l + "\n" for l in ls)[:3]),
+           "true": lambda ls: []}
+
+
+def _split(text):
+    ls = text.split("\n")
+    if ls[-1] == "":
+        ls.pop()
+    return ls
+
+
+# files read by :r: terminated, last line unterminated, a single unterminated line, empty
+AUX = {"aux": "aux1\naux2\n", "auxn": "n1\nn2\nn3", "aux1": "single", "auxe": ""}
 
 
 def prepare(build, tier):
@@ -82,7 +97,7 @@ def simple(draw, tok):
     if k == 9:
         return {"c": "", "a": a if a else [["", term(["n", draw(st.integers(0, 9))])]]}
     if k == 10:
-        return {"c": "r", "a": a, "path": draw(st.sampled_from(["aux", "aux", "nofile"]))}
+        return {"c": "r", "a": a, "path": draw(st.sampled_from(["aux", "auxn", "aux1", "auxe", "nofile"]))}
     sh = draw(st.sampled_from(sorted(FILTERS)))
     return {"c": "!", "a": a if a else [["", term(["."])]], "sh": sh}
 
@@ -202,7 +217,7 @@ def model_run(c):
         if k == "!":
             cmd = dict(cmd, fn=FILTERS[cmd["sh"]])
         if k == "r":
-            cmd = dict(cmd, content="aux1\naux2\n" if cmd["path"] == "aux" else None)
+            cmd = dict(cmd, content=AUX.get(cmd["path"]))
         before = list(ed.ln)
         ret = ed.cmd(cmd)
         if ret:
@@ -249,7 +264,8 @@ WMSG = re.compile(r'^"s\d+"  \[=\d+\]  \[w\]')
 def run_case(env, c):
     d = env.fresh()
     runner.write_file(d, "f", gen.to_bytes(c["lines"]))
-    runner.write_file(d, "aux", b"aux1\naux2\n")
+    for k, v in AUX.items():
+        runner.write_file(d, k, v.encode())
     try:
         want, info = model_run(c)
     except RecursionError:
